@@ -206,6 +206,7 @@ def run_one(seed, preset=None, tier="quick", want_case=False):
     supplies = {}
     results = {}
     layout_desc = {}
+    same_names = [0]
     try:
         for mi, mode in enumerate(modes):
             if mode == "string":
@@ -230,6 +231,10 @@ def run_one(seed, preset=None, tier="quick", want_case=False):
                         os.makedirs(sub, exist_ok=True)
                     ext = ".sdl" if ft.chance(50) else ".graphql"
                     p = os.path.join(sub, "part%d%s" % (bi, ext))
+                    if mode == "dir" and ft.chance(45) and not os.path.exists(os.path.join(sub, "schema" + ext)):
+                        # the same file name in several sub-directories is ordinary practice
+                        p = os.path.join(sub, "schema" + ext)
+                        same_names[0] += 1
                     with open(p, "w", encoding="utf-8") as f:
                         f.write("\n".join(b) + "\n")
                     paths.append(p)
@@ -247,7 +252,11 @@ def run_one(seed, preset=None, tier="quick", want_case=False):
         sch = pick_scheduler(cfgt)
         loop = SimLoop(tape.sub("sched"), sch[0], sch[1], "mixed")
         type_names = list(schema.types) + ["Int", "String", "NopeType", "__Type", "Query"]
-        queries = [("schema_all", schema_query(True)), ("schema_nodep", schema_query(False)),
+        META_Q = ("{ __schema { __typename queryType { __typename fields(includeDeprecated: true) { __typename args { __typename type { __typename } } "
+                  "type { __typename ofType { __typename } } } } directives { __typename args { __typename } } "
+                  "types { __typename name enumValues(includeDeprecated: true) { __typename } inputFields { __typename } interfaces { __typename } "
+                  "possibleTypes { __typename } } } }")
+        queries = [("meta_typenames", META_Q), ("schema_all", schema_query(True)), ("schema_nodep", schema_query(False)),
                    ("types_all", type_query(type_names, True)), ("types_nodep", type_query(type_names, False))]
 
         async def build(mode, name):
@@ -302,6 +311,32 @@ def run_one(seed, preset=None, tier="quick", want_case=False):
             for label, text in queries:
                 resp = results[(mode, label)]
                 viol.extend(check_envelope(resp, text))
+            if not hidden_schema:
+                # __typename of the introspection objects themselves
+                mt = results[(mode, "meta_typenames")]
+                bad_meta = []
+
+                def walk_meta(node, expect):
+                    if isinstance(node, list):
+                        for x in node:
+                            walk_meta(x, expect)
+                        return
+                    if not isinstance(node, dict):
+                        return
+                    if node.get("__typename") != expect:
+                        bad_meta.append((expect, node.get("__typename", "<absent>")))
+                    for k2, exp2 in (("queryType", "__Type"), ("types", "__Type"), ("type", "__Type"), ("ofType", "__Type"), ("interfaces", "__Type"),
+                                     ("possibleTypes", "__Type"), ("fields", "__Field"), ("args", "__InputValue"), ("inputFields", "__InputValue"),
+                                     ("enumValues", "__EnumValue"), ("directives", "__Directive")):
+                        if node.get(k2) is not None:
+                            walk_meta(node[k2], exp2)
+
+                if mt.get("errors") or not mt.get("data"):
+                    viol.append(V("introspection_failed", "[%s] meta_typenames: %r" % (mode, repr(mt.get("errors"))[:300])))
+                else:
+                    walk_meta(mt["data"]["__schema"], "__Schema")
+                    if bad_meta:
+                        viol.append(V("meta_typename", "[%s] __typename of introspection objects: expected / got %r" % (mode, bad_meta[:4])))
             if hidden_schema:
                 for label, _ in queries:
                     resp = results[(mode, label)]
@@ -398,7 +433,8 @@ def run_one(seed, preset=None, tier="quick", want_case=False):
                         "extend_enum": int(any(e.kind == "ENUM" for e in exts)), "extend_input": int(any(e.kind == "INPUT_OBJECT" for e in exts)),
                         "extend_interface": int(any(e.kind == "INTERFACE" for e in exts)), "extend_object": int(any(e.kind == "OBJECT" for e in exts)),
                         "extend_scalar": int(any(e.kind == "SCALAR" for e in exts)),
-                        "nested_directory": int(any("nested" in p for v in layout_desc.values() for p in v))})
+                        "nested_directory": int(any("nested" in p for v in layout_desc.values() for p in v)),
+                        "same_file_name_in_several_directories": int(same_names[0] >= 2)})
     if want_case or viol:
         r["case"] = {"sdl_canonical": canonical, "modes": modes, "file_layout": layout_desc,
                      "responses": {"%s/%s" % k: repr(v)[:400] for k, v in list(results.items())[:4]}}
